@@ -176,6 +176,11 @@ def other_cases(ctx, n):
         out.append({'mode': 'sqlite', 'q': 'select a1, a2', 'A': A, 'B': B, 'hdr': ['c1', 'c2'], 'hdrB': ['d1', 'd2'], 'table_name': name, 'join_name': None, 'tags': ['sqlite', 'input_name']})
         if not any(ch in name for ch in ' \n\t') and name != '':     # whitespace cannot be part of an identifier taken from query text
             out.append({'mode': 'sqlite', 'q': 'select a1, b.d2 join %s on a1 == b1' % name, 'A': A, 'B': B, 'hdr': ['c1', 'c2'], 'hdrB': ['d1', 'd2'], 'table_name': 't1', 'join_name': name, 'tags': ['sqlite', 'join_name']})
+    # the command line, interactive and not: default output paths are derived from the input path - never the input path itself
+    for file_name, delim in (('t.csv', ','), ('t.tsv', 'TAB'), ('t.txt', ','), ('data', ','), ('t.csv', ';')):
+        for interactive in (True, False):
+            out.append({'mode': 'cli', 'q': r.choice(['select a2, a1', 'select * where NR > 1', 'update a1 = a2']), 'A': rect(ctx, 3, 2), 'B': None,
+                        'file_name': file_name, 'delim': delim, 'interactive': interactive, 'tags': ['cli', 'interactive' if interactive else 'batch']})
     for q in QUERIES:
         out.append({'mode': 'sqlite', 'q': q, 'A': rect(ctx, 4, 2), 'B': rect(ctx, 3, 2), 'hdr': ['c1', 'c2'], 'hdrB': ['d1', 'd2'], 'table_name': 't1', 'join_name': 'b' if ' join b ' in q else None, 'tags': ['sqlite', 'benign']})
     return out
